@@ -296,6 +296,9 @@ fn exclusive_system<R: MkResult>(uid: SysUid)
             }
         }
         let err = { let mut c = world.commands(); queue_script(&mut c, uid, &ctx) };
+        // a one-off helper system called from the body: it neither applies the commands queued above nor releases the
+        // event this run is reacting to (the readers below still see it)
+        let _: u8 = world.syscall_once(3u8, |In(x): In<u8>| x);
         let (again, changed) = { let mut readers = state.get_mut(world); let ch = readers.changed(); (readers.sample(false, false, &mut Held::default()).0, ch) };
         // fetching the system state a second time moves its change-detection baseline
         push(Ev::ChangeSample{ changed, resample: true });
@@ -734,7 +737,9 @@ fn resolve_op(op: &Op, own: Option<SysUid>) -> (Resolved, Action)
             {
                 let id = case.new_payload();
                 let carries = carry_for(case, id);
-                (Resolved::Payload{ id, sys: None, carries }, Action::SysEvent(ent(case, *e), *ty, id))
+                // one target in four is the null id `Entity::PLACEHOLDER` (an unset handler slot)
+                let target = if *e % 4 == 3 { Entity::PLACEHOLDER } else { ent(case, *e) };
+                (Resolved::Payload{ id, sys: None, carries }, Action::SysEvent(target, *ty, id))
             }
             Op::Broadcast(ty) =>
             {
@@ -870,9 +875,9 @@ fn keys_of(resolved: &Resolved) -> (SysUid, Vec<Key>)
     }
 }
 
-/// How many manual runs `Op::RunMany(_, k)` queues at once: 140, 200, 260, or 1100 (a tree of more than a thousand
-/// commands, for thresholds in that range).
-pub fn run_many_len(k: u8) -> u32 { if k % 4 == 3 { 1100 } else { 140 + 60 * (k as u32 % 4) } }
+/// How many manual runs `Op::RunMany(_, k)` queues at once: 140, 200, 260, 1100 or 2100 (trees of more than a thousand /
+/// two thousand commands - all of them postponed when the target is the sender itself -, for thresholds in that range).
+pub fn run_many_len(k: u8) -> u32 { match k % 5 { 3 => 1100, 4 => 2100, x => 140 + 60 * x as u32 } }
 
 /// Performs the API call of an action through `Commands`.
 fn perform(c: &mut Commands, action: Action, resolved: &Resolved)
@@ -1396,6 +1401,20 @@ fn run_inner(program: &Program)
     drop(app);
 }
 
+/// A `tracing` subscriber that enables everything and records nothing.
+pub struct AllOn;
+
+impl tracing::Subscriber for AllOn
+{
+    fn enabled(&self, _: &tracing::Metadata<'_>) -> bool { true }
+    fn new_span(&self, _: &tracing::span::Attributes<'_>) -> tracing::span::Id { tracing::span::Id::from_u64(1) }
+    fn record(&self, _: &tracing::span::Id, _: &tracing::span::Record<'_>) {}
+    fn record_follows_from(&self, _: &tracing::span::Id, _: &tracing::span::Id) {}
+    fn event(&self, _: &tracing::Event<'_>) {}
+    fn enter(&self, _: &tracing::span::Id) {}
+    fn exit(&self, _: &tracing::span::Id) {}
+}
+
 /// Runs one program in a fresh world on the current thread and returns its trace.
 pub fn run_program(program: &Program, budget: u32) -> RunOutput
 {
@@ -1404,7 +1423,13 @@ pub fn run_program(program: &Program, budget: u32) -> RunOutput
         case.active = true;
         case.budget = budget;
     });
-    let result = std::panic::catch_unwind(std::panic::AssertUnwindSafe(|| run_inner(program)));
+    // in a quarter of the programs a `tracing` subscriber that enables every level is current on this thread: log statements
+    // (and the expressions in their fields) are evaluated, which must not change what the framework does
+    let result = if program.top.len() % 4 == 3
+    {
+        tracing::subscriber::with_default(AllOn, || std::panic::catch_unwind(std::panic::AssertUnwindSafe(|| run_inner(program))))
+    }
+    else { std::panic::catch_unwind(std::panic::AssertUnwindSafe(|| run_inner(program))) };
     verif_clear_sink();
     if let Err(payload) = result
     {
